@@ -20,6 +20,8 @@ def modelTransitionSites : List (String × String × String × String × String)
   ("sendable_frame.rs", "mark_sent", "cas", "Sending", "Sent"),                  -- opTxSend, outcome 0
   ("sendable_frame.rs", "release_sending_claim", "cas", "Sending", "Sendable"),  -- opTxSend, outcome ≠ 0
   ("receiving_frame.rs", "mark_received", "cas", "RxBusy", "RxDone"),            -- rxDeliver
+  ("receiving_frame.rs", "release_receiving_claim", "cas", "RxBusy", "Sent"),    -- rxDeliver: marker re-check after the claim
+                                                                                  --   (never taken when the call runs without interleaving)
   ("receiving_frame.rs", "release", "store", "*", "None"),                       -- opPoll (last timeout), opDropFut
   ("receiving_frame.rs", "poll", "cas", "RxDone", "RxProcessing"),               -- opPoll
   ("receiving_frame.rs", "poll", "cas", "Sent", "Sendable"),                     -- opPoll (retry)
